@@ -97,7 +97,7 @@ func bmCanonProps(m map[string]Value) string {
 	return out
 }
 
-var bmChunks = []string{"hello", "a b", "x", "café", "日本語", "\U0001F600 ok", "wor ld", "1 + 2", "end.", "tab\there", "q?", "-"}
+var bmChunks = []string{"hello", "a b", "x", "café", "日本語", "\U0001F600 ok", "wor ld", "1 + 2", "end.", "tab\there", "q?", "-", "back\\slash", "two\\\\s", "\\n"}
 var bmNames = []string{"a", "b", "wave", "big", "c1"}
 
 func ordinalCaseOf(n int) string {
